@@ -139,11 +139,15 @@ impl Expression for Op {
                 };
             }
             Or => {
-                return self
-                    .lhs
-                    .resolve(ctx)?
-                    .try_or(|| self.rhs.resolve(ctx))
-                    .map_err(Into::into);
+                return match self.lhs.resolve(ctx)? {
+                    Null | Boolean(false) => self.rhs.resolve(ctx).map_err(|err| match err {
+                        // `abort` and `return` in the rhs end the program; they are not a
+                        // failure of the `||` operation itself.
+                        ExpressionError::Abort { .. } | ExpressionError::Return { .. } => err,
+                        err => ValueError::Or(err).into(),
+                    }),
+                    value => Ok(value),
+                };
             }
             And => {
                 return match self.lhs.resolve(ctx)? {
